@@ -126,7 +126,10 @@ def create_archive(
             [
                 "tar",
                 "czf",  # Create a new archive and use gzip to compress
-                str(output_archive_path),
+                # An absolute path: tar takes a name of the form `host:file`
+                # (a colon before the first slash) for an archive on a
+                # remote machine.
+                str(output_archive_path.absolute()),
                 "-C",  # Files to put in the archive are relative to `ctx.output_path`
                 str(ctx.output_path),
                 # Task names and directories may start with a dash; everything
